@@ -324,7 +324,7 @@ def plan(tier, seed, jobs):
         for j in range(3):
             specs.append({"kind": "faults", "n": 150, "seed": seed, "j": j, "budget_s": 40})
         specs.append({"kind": "selfstop", "reps": 2, "seed": seed, "budget_s": 60})
-        specs.append({"kind": "arrival", "errnos": [errno.ENOENT], "seed": seed, "budget_s": 60})
+        specs.append({"kind": "arrival", "errnos": [errno.ENOENT, errno.ENOSPC], "seed": seed, "budget_s": 60})
         for j in range(3):
             specs.append({"kind": "apiholds", "seed": seed, "j": j, "of": 3, "budget_s": 60})
     else:
